@@ -32,7 +32,7 @@ func c18Gen(r *kit.Rng) *histScenario {
 	o.KeyPool = o.MaxEntries + 2
 	init := model.Random(r, s, o.WithBudget(60), 0)
 	g := &opGen{r: r, o: o, srcs: []string{"json", "xml", "mnode"},
-		kinds: []string{"delete", "delete", "delete", "replace", "replace", "upsert", "insert", "upsert"}}
+		kinds: []string{"delete", "delete", "delete", "sweep", "replace", "replace", "upsert", "insert", "upsert"}}
 	sc := &histScenario{Schema: s, Store: sk, Init: init}
 	cur := init.Clone()
 	n := r.Range(3, 25)
